@@ -51,10 +51,6 @@ def shards(tier, seed, scale):
     return common.mk_shards(16, seed, tier, per, scale, salt="c25")
 
 
-class Outside(Exception):
-    pass
-
-
 class Source(object):
     """independent model of a byte source"""
 
@@ -364,7 +360,7 @@ def run_source(src, nreads, rng, rec):
         if in_atomic and recent and rng.random() < 0.4:
             a0, l0 = rng.choice(recent)
             addr = a0 + rng.choice([0, 0, 0, 1])
-            l = rng.choice([l0, l0, 1, 2, 4])
+            l = max(1, rng.choice([l0, l0, 1, 2, 4]))       # zero-length byte reads are not judged
         else:
             addr = addr_near()
             l = rng.choice([1, 1, 2, 2, 3, 4, 4, 8, 8, 12])
